@@ -208,8 +208,28 @@ def locate(fmt, position, k):
     raise ValueError(fmt)
 
 
-def corrupt_field(sym, fmt, position, attr, rule, maxlen, k):
+WARM = [[], ["images"], ["treeinfo"], ["composeinfo"], ["treeinfo", "composeinfo"], ["images", "treeinfo"], ["discinfo", "rpms", "images"]]
+
+
+def warm_up(formats):
+    """what the process did before: valid objects of other formats were validated and written.  Validation must not depend on it
+    (productmd has same-named classes in different modules: Images, Variant, Release, BaseProduct, Compose, Header)"""
+    for fmt in formats:
+        if fmt == "composeinfo":
+            base_composeinfo(1)[0].dumps()
+        elif fmt == "images":
+            base_images(1)[0].dumps()
+        elif fmt == "treeinfo":
+            base_treeinfo(1)[0].dumps()
+        elif fmt == "discinfo":
+            base_discinfo().dumps()
+        else:
+            base_compose_only({"rpms": Rpms, "modules": Modules, "extra_files": ExtraFiles}[fmt]).dumps()
+
+
+def corrupt_field(sym, fmt, position, attr, rule, maxlen, k, warm=()):
     """one field, anywhere in the structure, takes any value outside its documented domain: nothing is written"""
+    warm_up(warm)
     top, holder = locate(fmt, position, k)
     kind = sym.choice("kind", KINDS)
     v = make_value(sym, kind, "v", maxlen)
@@ -234,8 +254,9 @@ def corrupt_field(sym, fmt, position, attr, rule, maxlen, k):
     sym.check("no-text-returned", text is None)
 
 
-def special_corruption(sym, case):
+def special_corruption(sym, case, warm=()):
     """structural rules that are not about one scalar"""
+    warm_up(warm)
     text = None
     if case == "child-arch-outside-parent":
         ci, objs = base_composeinfo(0)
@@ -392,7 +413,8 @@ def jobs(tier, seed):
     def add(fmt, position, fields, ks):
         for attr, rule, maxlen in fields:
             for k in ks:
-                out.append({"harness": "corrupt_field", "params": {"fmt": fmt, "position": position, "attr": attr, "rule": rule, "maxlen": maxlen, "k": k}})
+                w = [x for x in WARM[(len(out) + seed) % len(WARM)] if x != fmt]
+                out.append({"harness": "corrupt_field", "params": {"fmt": fmt, "position": position, "attr": attr, "rule": rule, "maxlen": maxlen, "k": k, "warm": w}})
     ks = (0, 3) if big else ((seed) % 10,)
     add("composeinfo", "compose", COMPOSE_FIELDS, ks)
     add("composeinfo", "release", RELEASE_FIELDS, ks)
@@ -415,7 +437,8 @@ def jobs(tier, seed):
     for case in ("child-arch-outside-parent", "child-arch-outside-parent-first-child", "misaligned-uid", "misaligned-top-uid", "empty-arches",
                  "bad-variant-id", "additional-variants-on-non-unified", "empty-checksums", "tree-absolute-checksum-path", "tree-unreferenced-platform",
                  "tree-absolute-image-path", "tree-absolute-stage2", "tree-misaligned-child-uid", "tree-dashed-variant-id"):
-        out.append({"harness": "special_corruption", "params": {"case": case}})
+        for w in ([], ["images"], ["treeinfo"]) if (big or case.startswith("tree") or "arch" in case or "uid" in case) else ([],):
+            out.append({"harness": "special_corruption", "params": {"case": case, "warm": w}})
     for fmt in ("composeinfo", "images", "rpms", "modules", "extra_files", "discinfo", "treeinfo"):
         for k in (range(10) if big else range(seed % 3, 10, 3)):
             out.append({"harness": "valid_written", "params": {"fmt": fmt, "k": k}})
@@ -432,5 +455,7 @@ META = {
         "treeinfo: release, base product, tree, media and variant fields plus the structural rules (absolute image / stage2 / checksum path, unreferenced platform, "
         "misaligned child UID, dash in a variant id); text values printable ASCII",
         "JSON text layer replaced by the DocText stub",
+        "history: before the corruption, valid objects of other formats (a rotating selection) are validated and written in the same process; every path starts from freshly "
+        "imported module state (psx.runner.module_state_guard)",
     ],
 }
